@@ -36,6 +36,12 @@ def generate(rng, tier):
         prog += insertion_history(rng, 0, segs)
         prog += insertion_history(rng, 1, segs)
         prog += [("BSetSR", 0, SR), ("BSetSR", 1, SR), ("OBForge", 0), ("OBForge", 1), ("OBDescr", 0), ("OBEq", 0, 1)]
+        if not malformed and rng.random() < 0.2:
+            # the same blueprint forged through an Element that earlier held (and validated) a blueprint at ANOTHER
+            # sample rate: the edit history of the element must not matter either
+            SR0 = SR * 2 if SR < 1e10 else SR / 2
+            prog += [("BNew", 2), ("BInsert", 2, -1, "ramp", [0, 1], 8 / SR0, None), ("BSetSR", 2, SR0), ("ENew", 0),
+                     ("EAddBp", 0, 1, 2), ("OEValidate", 0), ("OEPoints", 0), ("EAddBp", 0, 1, 0), ("OEArrays", 0, True)]
         yield {"prog": prog, "kind": "short-segment" if malformed else "forge", "SR": SR,
                "segs": [(f, a, d, nm, n) for f, a, d, nm, n in segs], "malformed": malformed}
 
@@ -80,6 +86,13 @@ def oracle(case, impl):
                 out.append(f"segment {fn} at samples [{pos},{pos + n}) differs from its pulse function on {n} points")
                 break
             pos += n
+    via = [r for op, r in zip(case["prog"], impl) if op[0] == "OEArrays"]
+    if via and not short and not isinstance(via[0], lang.Err) and not isinstance(forged[0], lang.Err):
+        got = via[0][1]
+        for k in ("wfm", "m1", "m2", "time"):
+            if len(got[k]) != len(forged[0][k]) or not np.array_equal(got[k], forged[0][k]):
+                out.append(f"forging the blueprint through an Element with an earlier history gives a different {k} "
+                           f"({len(got[k])} samples, stand-alone {len(forged[0][k])})")
     if len(forged) == 2 and not any(isinstance(f, lang.Err) for f in forged):
         a, b = forged
         for k in ("wfm", "m1", "m2", "time"):
